@@ -44,6 +44,11 @@ def cells(tier):
                 out.append(dict(kind=kind, t="pair", deltas=[a, b], phase=ph))
         for d in (0.7, 1.5):
             out.append(dict(kind=kind, t="category", delta=d, phase=0.3))
+        # an explicit due time on a message that also carries a period (shorter and longer than the delay)
+        for d, period in [(2.5, 1.0), (1.7, 0.5), (0.999, 0.4), (2.5, 10.0), (86400.0, 60.0)]:
+            for ph in (0.0, 0.5):
+                for mode in ("before0", "after", "paused"):
+                    out.append(dict(kind=kind, t="single", delta=d, phase=ph, mode=mode, recur=period))
         # east and west of UTC: one phase, every delta and consumer mode
         for tz in (9, -5):
             for d in DELTAS:
@@ -88,7 +93,9 @@ def _execute(cell):
                 got.setdefault(key.id_, []).append((loop._ns + CLOCK.offset_ns, key, params))
 
         async def enqueue(mid, delta):
-            p = w.params(next_in=delta)
+            # recur: the back-off of a retried recurring job - an explicit due time next to a period
+            p = w.params(next_in=delta, defer_by=cell.get("recur"), retries=3 if cell.get("recur") else 0,
+                         tried=1 if cell.get("recur") else 0)
             due[mid] = CLOCK.ns() + round(delta * NS)
             await w.broker.enqueue(w.key(mid), "p", p)
 
